@@ -164,7 +164,13 @@ func init() {
 		Rule: "engine E: RandomIndex for all (total<=9, count<total) x seeds {0..N} u {2^k} u big values, and RandomSP for all node populations (multisets over 11 attribute classes, both store orders) x ignore lists (size<=2) x count 1..4 x cursor {unset,0..5} x 10 seeds, each result checked for distinctness, ignore-list, eligibility and size; engine X: every shard assignment made by store/timeout/migrate in the lifecycle and fault-sequence explorations; distinct_nontrivial = distinct (index tuple) + (count/eligible/returned) outcomes + states with a completed shard",
 		Assumptions: append([]string{"populations larger than 5 nodes and attribute values outside the 11 classes are not covered"}, lifeAssumptions...),
 		Scenarios: func(tier string) []*engine.Scenario {
-			return append(lifeFamily("C15", tier, props("C15"), nil), TimeoutFamily("C15", tier, props("C15"))...)
+			out := append(lifeFamily("C15", tier, props("C15"), nil), TimeoutFamily("C15", tier, props("C15"))...)
+			// capacity withdrawn between versions: force-push / update must still place shards on eligible providers
+			fp := capLife("C15", tier, props("C15"))
+			fp.ID = "C15-life-cap-forcepush"
+			fp.ForcePush, fp.Update = true, true
+			fp.Depth = 5
+			return append(out, LifeScenario(fp))
 		},
 		Extra: func(tier string, shard, of int) ExtraResult { return SelectExtra(tier, shard, of, "C15") }})
 	register(&Check{ID: "C02", Level: "model_checking", Workers: 16,
